@@ -200,11 +200,14 @@ impl<'a> SectionsBuilder<'a> {
                 self.builder.quote();
                 self.set_lines_range(quote.line_range);
                 let id = self.builder.id();
-                SectionsBuilder::new(
+                // keep the line ranges of the blocks inside the quote as well
+                let quoted = SectionsBuilder::new(
                     &mut self.builder.graph().builder(id),
                     &quote.blocks,
                     &self.key,
-                );
+                )
+                .nodes_map();
+                self.nodes_map.extend(quoted);
             }
             HorizontalRule(rule) => {
                 self.builder.horizontal_rule();
